@@ -160,7 +160,9 @@ func genC11(t *rapid.T) C11Case {
 			created[s] = append(append([]c11Route{}, created[s][:k]...), created[s][k+1:]...)
 			c.Ops = append(c.Ops, C11Op{Op: "rmroute", Svc: s, RouteID: id})
 		default:
-			if handles < 3 {
+			if handles > 0 && rapid.IntRange(0, 2).Draw(t, "handleagain") == 0 {
+				c.Ops = append(c.Ops, C11Op{Op: "handle", Pattern: []string{"/_h/one", "/_h/two/", "/_h/t/x"}[rapid.IntRange(0, handles-1).Draw(t, "takenpattern")]})
+			} else if handles < 3 {
 				c.Ops = append(c.Ops, C11Op{Op: "handle", Pattern: []string{"/_h/one", "/_h/two/", "/_h/t/x"}[handles]})
 				handles++
 			}
@@ -445,7 +447,14 @@ func checkC11History(c C11Case) (vs []*Violation) {
 				}
 			}
 			if dup {
-				continue
+				// a pattern that is taken: the documented panic, which the caller recovers from;
+				// a registration that failed is no part of the container's content
+				func() {
+					defer func() { recover() }()
+					ct.Handle(op.Pattern, c11Plain(op.Pattern))
+				}()
+				labels = append(labels, "handle_of_a_taken_pattern_refused")
+				break
 			}
 			var pan interface{}
 			func() {
